@@ -270,6 +270,18 @@ class Program:
                 out[cands[0]] = m
         return out
 
+    def _schema_classes(self):
+        sc = getattr(self, "_schema_cls", None)
+        if sc is None:
+            path = os.path.join(frontend.VERIF, "rules", "decl_schema.json")
+            try:
+                import json as _json
+                sc = set(_json.load(open(path)).keys())
+            except (OSError, ValueError):
+                sc = set()
+            self._schema_cls = sc
+        return sc
+
     def _apply_aliases(self):
         """Resolve pure renames of data members and methods against the frozen declaration schema (rules/decl_schema.json,
         generated from the tree the rules were written for): the renamed declaration keeps answering to the name the rules
@@ -346,6 +358,9 @@ class Program:
                 q = (prefix + "::" if prefix else "") + (name if name else "(anonymous namespace)")
             elif k in ("CXXRecordDecl", "EnumDecl", "ClassTemplateSpecializationDecl"):
                 q = (prefix + "::" if prefix else "") + (name or "<anon>")
+                # a library class moved into an anonymous namespace (file-local class of one .cpp) keeps the name the rules know
+                if "(anonymous namespace)::" in q and q.replace("(anonymous namespace)::", "") in self._schema_classes():
+                    q = q.replace("(anonymous namespace)::", "")
             elif k in FUNC_KINDS or k in ("FieldDecl", "VarDecl", "EnumConstantDecl", "TypeAliasDecl",
                                           "TypedefDecl", "ParmVarDecl"):
                 ctx = prefix
@@ -485,6 +500,17 @@ class Program:
     def func(self, qname, required=True):
         """The unique function with this qualified name (overloads: list)."""
         fs = self.funcs_by_q.get(qname, [])
+        if not fs:
+            # a free function moved into (or out of) an anonymous namespace keeps its identity
+            anon = getattr(self, "_anon_q", None)
+            if anon is None:
+                anon = self._anon_q = {}
+                for q, lst in self.funcs_by_q.items():
+                    if "(anonymous namespace)::" in q:
+                        anon.setdefault(q.replace("(anonymous namespace)::", ""), []).extend(lst)
+            fs = anon.get(qname.replace("(anonymous namespace)::", ""), [])
+            if not fs:
+                fs = self.funcs_by_q.get(qname.replace("(anonymous namespace)::", ""), [])
         if not fs and required:
             raise AnalysisBroken("anchor function %s not found (renamed or removed?)" % qname)
         return fs
